@@ -719,6 +719,7 @@ func (p *Proc) callModular(ec *ectx, ct *Contract, fi *FuncInfo, fn *types.Func,
 	for i, cl := range ct.ByKind("requires") {
 		cec := p.contractEc(st, ct, fi, fn, extra)
 		cec.where = cl.Where
+		cec.atCallSite = true
 		g := p.eval(cec, cl.Expr)
 		p.oblige(st, "callsite.pre", fmt.Sprintf("%s.pre[%d]", site, i+1), cl.Tags, g.T, p.where(call))
 		st.assume(g.T)
@@ -758,8 +759,15 @@ func (p *Proc) callModular(ec *ectx, ct *Contract, fi *FuncInfo, fn *types.Func,
 		cec.where = cl.Where
 		cec.results = results
 		cec.old = pre
+		cec.atCallSite = true
 		g := p.eval(cec, cl.Expr)
 		st.assume(g.T)
+	}
+	// consistency probe: assuming the callee's postconditions must not make a reachable path
+	// unreachable (a contradictory contract would make everything after the call vacuously true)
+	if len(ct.ByKind("ensures")) > 0 {
+		p.callProbes = append(p.callProbes, &Obligation{Name: p.fi.Name + ":consistency." + site, Kind: "consistency", Proc: p.fi.Name,
+			PC: append([]*Term(nil), st.pc...), PrePC: append([]*Term(nil), pre.pc...), Goal: TFalse, Decls: &p.decls, ExpectSat: true, Where: p.where(call)})
 	}
 	switch len(results) {
 	case 0:
